@@ -1501,7 +1501,16 @@ METHODS = {
     'into_future': [identity], 'new_unchecked': [identity], 'into_inner': [], 'get_unchecked_mut': [identity], 'as_mut_': [],
 }
 
+def box_dyn_call(ex, n, a):
+    callee = deref_all(a[0])
+    inner = list(a[1].fields) if isinstance(a[1], Agg) and a[1].kind == 'tuple' else [a[1]]
+    if isinstance(callee, FnVal): return ex.call(callee, inner)
+    if isinstance(callee, Agg) and callee.kind == 'closure': return ex.call_closure(callee, inner)
+    return NotImplemented
+
+
 FULLNAME = [
+    (re.compile(r'<std::boxed::Box<dyn .*> as std::ops::Fn(Mut|Once)?<.*>>::call(_once|_mut)?'), box_dyn_call),
     (re.compile(r'std::mem::replace::<.*>'), M_mem_replace),
     (re.compile(r'std::mem::take::<.*>'), M_mem_take),
     (re.compile(r'std::mem::swap::<.*>'), M_swap),
@@ -1542,3 +1551,27 @@ def lookup(ex, name, args):
         return NotImplemented
     multi.__name__ = hs[0].__name__
     return multi
+
+
+# ------------------------------------------------------------------------------------------- tokio watch (a cell)
+class WatchV:
+    """tokio::sync::watch channel state shared by Sender and Receivers: a cell"""
+    __slots__ = ('cell', 'version')
+
+    def __init__(self, v):
+        self.cell = v if isinstance(v, Cell) else Cell(v); self.version = 0
+
+    def py_clone(self, ex): return self
+    def py_eq(self, ex, o): return self is o
+    def __repr__(self): return f'Watch({self.cell.v!r})'
+
+
+def deref_all_cell(v):
+    """the cell behind a (reference to a) watch sender / receiver / Arc"""
+    while True:
+        if isinstance(v, Ref): v = v.get()
+        elif isinstance(v, BoxV): v = v.deref()
+        elif isinstance(v, WatchV): return v.cell
+        elif hasattr(v, 'watch'): return v.watch.cell
+        elif isinstance(v, Agg) and len(v.fields) == 1: v = v.fields[0]
+        else: raise Unmodelled(f'no watch cell behind {type(v).__name__}')
